@@ -25,7 +25,7 @@ STR_NONE_VALUES = {""}
 
 def coerce(cls: Type[T], data: Any) -> T:
     if cls is NoneType:
-        if data is None or data in STR_NONE_VALUES:
+        if data is None or (isinstance(data, str) and data in STR_NONE_VALUES):
             return None  # type: ignore
         else:
             raise bad_type(data, cls)
@@ -33,7 +33,10 @@ def coerce(cls: Type[T], data: Any) -> T:
         return data
     elif cls is bool:
         if isinstance(data, str):
-            return STR_TO_BOOL[data.lower()]  # type: ignore
+            try:
+                return STR_TO_BOOL[data.lower()]  # type: ignore
+            except KeyError:
+                raise bad_type(data, cls)
         elif isinstance(data, int):
             return bool(data)  # type: ignore
         else:
@@ -41,7 +44,7 @@ def coerce(cls: Type[T], data: Any) -> T:
     elif cls in (int, float):
         try:
             return cls(data)  # type: ignore
-        except ValueError:
+        except (ValueError, TypeError, OverflowError):
             raise bad_type(data, cls)
     elif cls is str:
         if isinstance(data, (int, float)) and not isinstance(data, bool):
